@@ -46,6 +46,8 @@ def replay_1d(sc):
         for name, model in concrete_models().items():
             grid = GS.CTMCGrid(h=float(-axis[nl - 1]) if False else float(axis[nl + 1]), origin_coordinate=nl, axes=[axis.copy()])
             for _ in range(refine):
+                if sc.get("reuse"):
+                    MC.MarkovChainProcess(model, SamplingMethod.INVERSION, grid)
                 grid.refine()
             proc = MC.MarkovChainProcess(model, SamplingMethod.INVERSION, grid)
             nu_t = proc.model.levy_triplet.nu
@@ -70,9 +72,9 @@ def replay_1d(sc):
     return bool(details), "; ".join(details[:3]) if details else "rates equal cell masses on HEM/CGMY"
 
 
-def scen_1d(ctx, nl, nr, refine, axis0):
+def scen_1d(ctx, nl, nr, refine, axis0, reuse=False):
     def b(m):
-        return {"nl": nl, "nr": nr, "refine": refine, "axis": [m.f(x) if V.is_sym(x) else float(x) for x in axis0]}
+        return {"nl": nl, "nr": nr, "refine": refine, "reuse": reuse, "axis": [m.f(x) if V.is_sym(x) else float(x) for x in axis0]}
 
     return b
 
@@ -80,16 +82,22 @@ def scen_1d(ctx, nl, nr, refine, axis0):
 # --------------------------------------------------------------------------------------
 
 
-def h_1d(ctx, nl, nr, refine=0, fa=False, fv=True):
+def h_1d(ctx, nl, nr, refine=0, fa=False, fv=True, reuse=False):
+    """reuse: the same grid object serves a chain at every level before it is refined again (what the couplings' next_level does)"""
     axis, h, pivot = sym_axis(ctx, nl, nr)
     axis0 = list(axis)
     grid = make_grid(h, pivot, [axis])
-    for _ in range(refine):
-        grid.refine()
     sigma = ctx.real("sigma", 0)
     a = ctx.real("a")
     model = A.abs_levy_model(ctx, "nu", sigma=sigma, a=a, finite_activity=fa, finite_variation=fv)
     nu = model.levy_triplet.nu
+    for _ in range(refine):
+        if reuse:
+            try:
+                MC.MarkovChainProcess(model, SamplingMethod.INVERSION, grid)
+            except ZeroDivisionError:
+                raise PathAbort()
+        grid.refine()
     try:
         proc = MC.MarkovChainProcess(model, SamplingMethod.INVERSION, grid)
     except ZeroDivisionError:
@@ -98,8 +106,8 @@ def h_1d(ctx, nl, nr, refine=0, fa=False, fv=True):
     nu_t = proc.model.levy_triplet.nu
     q = SF.create_q_vector(nu_t, grid)
     ax, piv = grid.axes[0], grid.origin_coordinate.value
-    rp = (replay_1d, scen_1d(ctx, nl, nr, refine, axis0))
-    info = {"nl": nl, "nr": nr, "refine": refine}
+    rp = (replay_1d, scen_1d(ctx, nl, nr, refine, axis0, reuse))
+    info = {"nl": nl, "nr": nr, "refine": refine, "reuse": reuse}
     cs = cells(ax, piv)
     total = z3.RealVal(0)
     for k, (lo, hi) in cs.items():
@@ -340,12 +348,53 @@ def oracle_mass(models, cop, lo, hi, trunc):
     return z3.simplify(rec(list(range(d)), list(lo), list(hi)))
 
 
+def replay_copula(sc):
+    """real HEM margins with a Clayton Lévy copula on a non-uniform grid: every state's rate (inversion probability x intensity)
+    against the model's own mass of that state's cell, the cell being built here from the raw axes (midpoints, axis ends, central gap)"""
+    import rpylib.model.levymodel.mixed.hem as HEM
+    from rpylib.distribution.levycopula import ClaytonCopula
+
+    d, npts = sc["d"], sc["npts"]
+    ms = [HEM.HEMModel(HEM.HEMParameters(sigma=0.1, p=0.4 + 0.1 * i, eta1=20.0 - 3 * i, eta2=25.0 + 2 * i, intensity=3.0 - 0.5 * i)) for i in range(d)]
+    lcm = LCM.LevyCopulaModel(models=ms, copula=ClaytonCopula(theta=2.0, eta=0.5))
+    h = 0.1
+    axis = np.array([-h * 1.7**k for k in range(npts)][::-1] + [0.0] + [h * 1.6**k for k in range(npts)])
+    grid = GS.CTMCGrid(h=h, origin_coordinate=npts, axes=[axis.copy() for _ in range(d)])
+    proc = MCLC.MarkovChainLevyCopula(lcm, grid, SamplingMethod.INVERSION)
+    lam = proc.intensity_of_jumps
+    model_t = proc.model
+    n = len(axis)
+    cs = cells(axis, npts)
+    central = (axis[npts - 1] / 2, axis[npts + 1] / 2)
+    bad, total = [], 0.0
+    for state in itertools.product(range(n), repeat=d):
+        if all(s == npts for s in state):
+            continue
+        lo = np.array([cs[s][0] if s != npts else central[0] for s in state], dtype=float)
+        hi = np.array([cs[s][1] if s != npts else central[1] for s in state], dtype=float)
+        want = max(float(model_t.mass(lo, hi)), 0.0)
+        total += want
+        got = float(proc.sampling.probability_to_jump_to_state(tuple(s - npts for s in state))) * lam
+        if abs(got - want) > 1e-9 * max(1.0, want):
+            bad.append(f"state {tuple(round(float(axis[s]), 4) for s in state)}: rate {got!r} vs mass of its cell {want!r}")
+    if abs(total - lam) > 1e-9 * max(1.0, total):
+        bad.append(f"intensity {lam!r} vs sum of the cell masses {total!r}")
+    return bool(bad), f"HEM^{d} with Clayton(2, 0.5), axis {axis.round(4).tolist()}: " + "; ".join(bad[:3])
+
+
 def h_copula(ctx, d, npts, method="INVERSION"):
     grid, lcm, models, cop = _copula_setup(ctx, d, npts)
+    rpc = (replay_copula, lambda m: {"d": d, "npts": max(npts, 2)})
     try:
         proc = MCLC.MarkovChainLevyCopula(lcm, grid, SamplingMethod[method])
     except ZeroDivisionError:
         raise PathAbort()
+    except A.InfiniteIntegral as e:
+        # the construction asked for the mass of a set that touches the origin of a margin (infinite for an infinite-activity
+        # measure): its cells are not the cells of the grid
+        ctx.prove(f"C01.cells_stay_away_from_the_origin.{d}d", False, info={"d": d, "npts": npts, "raised": str(e)}, replay=rpc)
+        return
+    ctx.prove(f"C01.cells_stay_away_from_the_origin.{d}d", True)
     lam = proc.intensity_of_jumps
     piv = grid.origin_coordinate
     trunc = [(ax[0], ax[len(ax) - 1]) for ax in grid.axes]
@@ -367,8 +416,8 @@ def h_copula(ctx, d, npts, method="INVERSION"):
         p = proc.sampling.probability_to_jump_to_state(inc) if method == "INVERSION" else None
         if p is not None:
             # the factory clips negative masses to 0: the rate is max(mass, 0)/intensity
-            ctx.prove(f"C01.rate_is_cell_mass.{d}d", EQ(p, V.smax(SymReal(want), 0) / lam), info=dict(info, state=state))
-    ctx.prove(f"C01.sum_of_rates_is_intensity.{d}d", EQ(lam, SymReal(z3.simplify(total))), info=info)
+            ctx.prove(f"C01.rate_is_cell_mass.{d}d", EQ(p, V.smax(SymReal(want), 0) / lam), info=dict(info, state=state), replay=rpc)
+    ctx.prove(f"C01.sum_of_rates_is_intensity.{d}d", EQ(lam, SymReal(z3.simplify(total))), info=info, replay=rpc)
 
 
 def h_twin(ctx):
@@ -384,20 +433,27 @@ def h_twin(ctx):
     ctx.prove("C01.twin.moved_boundary", EQ(q[3], SymReal(wrong)))
 
 
+def _copula_concrete():
+    ok, d = replay_copula({"d": 2, "npts": 2})
+    return ("C01.concrete.copula_rates", not ok, d)
+
+
 def concrete_validation():
     ok, detail = replay_1d({"nl": 3, "nr": 2, "refine": 1})
     ok2, detail2 = replay_bsta1d({"nl": 2, "nr": 3})
     return [("C01.concrete.rates", not ok, "shimmed modules on HEM/CGMY floats: " + detail),
-            ("C01.concrete.adapted_tree", not ok2, "shimmed modules on HEM/CGMY floats: " + detail2)]
+            ("C01.concrete.adapted_tree", not ok2, "shimmed modules on HEM/CGMY floats: " + detail2), _copula_concrete()]
 
 
 def harnesses(tier):
     q = tier == "quick"
     hs = [Harness("concrete", concrete_validation, concrete=True)]
-    shapes = [(2, 2, 0), (1, 2, 1), (2, 1, 0)] if q else [(2, 2, 0), (1, 2, 1), (2, 1, 1), (3, 3, 0), (2, 2, 1), (3, 2, 1), (2, 2, 2), (1, 1, 2)]
+    shapes = [(2, 2, 0), (1, 2, 1), (2, 1, 0)] if q else [(2, 2, 0), (1, 2, 1), (2, 1, 1), (3, 3, 0), (2, 2, 1), (3, 2, 1), (2, 1, 2), (1, 1, 2)]
     for nl, nr, rf in shapes:
         for fa, fv in ((True, True), (False, True), (False, False)):
             hs.append(Harness(f"1d.{nl}.{nr}.r{rf}.fa{int(fa)}.fv{int(fv)}", h_1d, {"nl": nl, "nr": nr, "refine": rf, "fa": fa, "fv": fv}, max_paths=4000))
+    for nl, nr, rf in ([(1, 1, 1), (1, 2, 1)] if q else [(1, 1, 1), (1, 2, 1), (1, 1, 2), (2, 2, 1)]):
+        hs.append(Harness(f"1d.reuse.{nl}.{nr}.r{rf}", h_1d, {"nl": nl, "nr": nr, "refine": rf, "fa": False, "fv": True, "reuse": True}, max_paths=4000))
     for nl, nr in ([(1, 2), (2, 2)] if q else [(1, 2), (2, 1), (2, 2), (3, 2), (3, 3)]):
         for lv in (1, Fraction(3, 2)):
             hs.append(Harness(f"bsta1d.{nl}.{nr}.lam{lv}", h_bsta1d, {"nl": nl, "nr": nr, "lam_value": lv}, max_paths=4000))
